@@ -145,7 +145,12 @@ func runReplayFile(path string) int {
 			Arg    string   `json:"arg"`
 			Inputs []string `json:"inputs"`
 		} `json:"replay_recipe"`
-		Known map[string]string `json:"known_replay"`
+		Known   map[string]string `json:"known_replay"`
+		Harness *struct {
+			Pkg  string            `json:"pkg"`
+			Kind string            `json:"kind"`
+			Args map[string]string `json:"args"`
+		} `json:"harness_recipe"`
 	}
 	if err := json.Unmarshal(data, &rep); err != nil {
 		fmt.Println("bad replay file:", err)
@@ -157,6 +162,19 @@ func runReplayFile(path string) int {
 		o.repoDir = d
 	}
 	p := &Prog{}
+	if rep.Recipe == nil && rep.Harness != nil {
+		rs, err := p.runHarness(o, rep.Harness.Pkg, []replayJob{{ID: "harness", Kind: rep.Harness.Kind, Args: rep.Harness.Args}})
+		if err != nil || len(rs) != 1 {
+			fmt.Println("replay failed to run:", err)
+			return 2
+		}
+		if !rs[0].OK {
+			fmt.Println("VIOLATED:", rs[0].Detail)
+			return 1
+		}
+		fmt.Println("holds:", rs[0].Detail)
+		return 0
+	}
 	if rep.Recipe == nil && rep.Known != nil {
 		// a witness recorded with an earlier finding about the same obligation
 		still, detail := p.replayKnown(o, KnownFinding{ID: "recorded", Replay: rep.Known})
